@@ -469,7 +469,7 @@ func guard(f func() error) string {
 	select {
 	case s := <-done:
 		return s
-	case <-time.After(5 * time.Second):
+	case <-time.After(20 * time.Second):
 		return "timeout"
 	}
 }
